@@ -284,6 +284,21 @@ Section Kind.
     destruct (allow_role _ _ _ Ha) as [R'|R']; congruence.
   Qed.
 
+  Lemma allowed_after_voter b la l : PInv T b -> AllowedAfter b la l -> exists q, pm_get (b_cur b) l = Some q /\ prole q = Voter.
+  Proof.
+    intros P [Hin Ha]. destruct (in_ids_get _ _ Hin) as (q & Hq). unfold allow_leader_after in Ha. rewrite Hq in Ha. cbn [allow_leader_o] in Ha.
+    exists q. split; [exact Hq|]. pose proof (pi_at _ _ P l) as Q. unfold look, PIat in Q. rewrite Hq in Q.
+    destruct Q as (_ & _ & _ & _ & _ & Qc). destruct (Qc q eq_refl) as (_ & _ & [R|R]); [exact R|].
+    destruct (allow_role _ _ _ Ha) as [R'|R']; congruence.
+  Qed.
+
+  Lemma allowed_after_nonzero b la l : PInv T b -> AllowedAfter b la l -> l <> 0.
+  Proof.
+    intros P A. destruct (allowed_after_voter b la l P A) as (q & Hq & _).
+    pose proof (pi_at _ _ P l) as Q. unfold look, PIat in Q. rewrite Hq in Q.
+    destruct Q as (_ & _ & _ & _ & _ & Qc). destruct (Qc q eq_refl) as (N & _). exact N.
+  Qed.
+
   Lemma allowed_nonzero b l : PInv T b -> Allowed b l -> l <> 0.
   Proof.
     intros P A. destruct (allowed_voter b l P A) as (q & Hq & _).
@@ -384,7 +399,7 @@ Section Kind.
                  \/ (exists x, p_promote p = Some x /\ pstore x = lbr p)
                  \/ (exists a, p_add p = Some a /\ pstore a = lbr p /\ prole a = Voter)).
       { intros _. destruct Hlr as [HA|[(I1 & I2 & I3)|(I1 & I2 & I3)]].
-        - left. apply allowed_voter; assumption.
+        - left. eapply allowed_after_voter; eassumption.
         - right. left. rewrite Epro. destruct (p_promote next) as [x|]; [|discriminate]. exists x. cbn [ostore] in I2. auto.
         - right. right. rewrite Eadd. destruct (p_add next) as [a|] eqn:Ea; [|discriminate]. exists a. cbn [ostore allow_leader_o] in *.
           split; [reflexivity|split; [auto|]].
@@ -395,7 +410,7 @@ Section Kind.
           destruct (allow_role _ _ _ I3) as [R'|R']; congruence. }
       assert (Hlbr0 : lbr p <> 0).
       { destruct Hlr as [HA|[(I1 & I2 & I3)|(I1 & I2 & I3)]].
-        - apply (allowed_nonzero b); assumption.
+        - eapply (allowed_after_nonzero b); eassumption.
         - destruct (p_promote next) as [x|] eqn:Ex; [|discriminate]. cbn [ostore] in I2. rewrite I2.
           assert (Hin : In x (b_promote b)).
           { destruct HB as [(d & pr & _ & Hpr & ->)|[(d & a' & _ & _ & _ & ->)|[(a' & x' & _ & _ & _ & _ & ->)|[(pr & a' & x' & Hpr & _ & _ & _ & _ & _ & ->)|(d & x' & a' & _ & _ & _ & _ & _ & _ & ->)]]]];
@@ -469,7 +484,7 @@ Section Kind.
         assert (Hall : forall a, In a (b_add b) -> is_learner a = true).
         { intros a Ha. destruct (is_learner a) eqn:El; [reflexivity|]. exfalso.
           assert (X : NE (plan_replace b)).
-          { apply plan_replace_NE_of. left. exists d, a, l, l. repeat split; auto; apply HAl. }
+          { apply plan_replace_NE_of. left. exists d, a, l, l. repeat split; auto; try apply HAl; apply allowed_after_self; exact HAl. }
           unfold NE in X. congruence. }
         pose proof (voters_bound b r (pstore d) o S P Hp0 Hall Ho Hro) as B.
         assert (Hpend : pm_get (b_demote b) (pstore d) <> None \/ pm_get (b_remove b) (pstore d) <> None) by (left; rewrite G1; discriminate).
@@ -485,7 +500,7 @@ Section Kind.
         { intros a Ha. destruct (is_learner a) eqn:El; [reflexivity|]. exfalso.
           destruct (add_facts b a P Ha) as (_ & _ & Gf).
           assert (X : NE (plan_replace b)).
-          { apply plan_replace_NE_of. right. exists a, x, l, l. repeat split; auto; try apply HAl; try congruence.
+          { apply plan_replace_NE_of. right. exists a, x, l, l. repeat split; auto; try apply HAl; try congruence; try (apply allowed_after_self; exact HAl).
             unfold cur_free. rewrite (Gf El). reflexivity. }
           unfold NE in X. congruence. }
         assert (Hxv : prole x = Voter).
